@@ -1,5 +1,5 @@
 (* C10 — concurrent requests and block events behave as if executed one at a time.
-   Statements only (proofs: ConcTowerProofs.v, ConcBreach.v, ConcLin.v, ConcReg.v, ConcPurge.v).  Model: ConcTower.v — the thread
+   Statements only (proofs: ConcTowerProofs.v, ConcBreach.v, ConcLin.v, ConcReg.v, ConcPurge.v, ConcCoarse.v, ConcDisc.v).  Model: ConcTower.v — the thread
    programs of register / add_appointment / get_appointment / get_subscription_info / block connected / block disconnected at
    lock-acquisition granularity, `run_sched` = all interleavings at EVENT granularity (every lock
    acquisition, release, action under locks and atomic height access is a step of its own).
@@ -7,6 +7,8 @@
    PROVED, for all states, parameters and ALL schedules:
      C10_thread_programs_refine_sequential_model   a program run alone = Tower.step
      C10_no_missed_breach                          add || block with the dispute: accepted => tracker, or row gone, or -27
+     C10_no_missed_breach_refined                  the same with the hypothesis on the locator cache discharged from the C19
+                                                   refinement: cache represents a window (RepW), capacity >= 1, block valid
      C10_guard_spanning_lookup_and_store_is_necessary   with the cache guard dropped before the store the breach is missed
      C10_tables_are_statement_sequences, C10_no_orphan_records   any number of threads: FK integrity always
      C10_lock_protects_data, C10_slot_rmw_atomic, C10_data_stable_while_locked
@@ -28,14 +30,34 @@
                                                    somebody else poisoned
      C10_add_purge_refused, C10_get_purge_refused  the schedules that used to kill the tower (user purged between
                                                    authentication and charge / expiry test): refused, nothing poisoned
+     C10_writer_among_readers_runs_alone           any number of readers (get_appointment, get_subscription_info) || ONE
+                                                   arbitrary thread (request or block events): that thread's reply and the
+                                                   final state are those of its run alone = of every sequential order
+     C10_get_disconnect_linearizable, C10_getsub_disconnect_linearizable
+                                                   reader || block disconnected: state and BOTH replies of a sequential order
+     C10_coarse_runs_are_fine_runs                 every run_coarse execution (what the controlled scheduler replays) is a
+                                                   run_sched execution: the theorems cover every run of the harness
+     C10_coarse_configs_are_settled, C10_preemption_before_an_action_is_not_coarse
+                                                   the converse fails exactly at preemptions before an action / a release
+                                                   (atomic height accesses): not replayed by the harness - the documented limit
    REFUTED by a witness schedule (each is replayed on the real code by the check):
      C10_single_charge_refuted                     two identical submissions are charged twice
      C10_add_connect_not_linearizable              height stamps of neither order (the three guarantees hold)
+     C10_reader_reply_not_linearizable             get || add with the dispute already in the cache: the reader is told
+                                                   "appointment" (stored, tracker not yet inserted): reply of neither order
+     C10_reader_purge_reply_not_linearizable       get / get_subscription_info || the purging block: "not found" / "no locators"
+                                                   (the reader's sections straddle the purge): reply of neither order
+   Hence `get || anything` is settled: state and the other thread's reply always (C10_writer_among_readers_runs_alone);
+   the reader's own reply is that of a sequential order against a disconnection (proved) and against readers
+   (C10_reads_linearizable), NOT against add_appointment on the trigger path nor against the purge (refuted); against
+   register, add_appointment off the trigger path and a block without purge that does not touch the reader's rows it is
+   OPEN (the exploration finds no reply of neither order there).
    OPEN (no proof, no counterexample; the exhaustive controlled exploration of the check finds every final
    state of these pairs equal to a sequential order within its preemption bound, up to the height stamps):
-     register || add, add || add (different appointment), get || register/add/connect
-     without purge, register/add/get || disconnect, register || the watcher's and the responder's part of a block. *)
-From TeosModel Require Import Base TxIndex Tower TowerInv Crash ConcTower ConcTowerProofs ConcBreach ConcLin ConcReg ConcPurge.
+     register || add, add || add (different appointment), register/add || disconnect,
+     register || the watcher's and the responder's part of a block. *)
+From TeosModel Require Import Base TxIndex Tower TowerInv Crash ConcTower ConcTowerProofs ConcBreach ConcLin ConcReg ConcPurge ConcCoarse ConcDisc.
+From TeosModel Require Import TxIndexProofs.
 From Coq Require Import Permutation.
 From TeosModel.Gen Require Consts.
 Local Open Scope N_scope.
@@ -96,6 +118,27 @@ Proof.
   split; [left; reflexivity|]. split.
   - intros c H. vm_compute in H. inversion H. subst c. vm_compute. discriminate.
   - vm_compute. split; [reflexivity|discriminate].
+Qed.
+
+(* The same with hypotheses on the reachable state and the chain only: the locator cache (capacity n >= 1) represents a
+   window w of blocks (TxIndexProofs.RepW, the invariant C19 proves of every index built by ti_new and updated under
+   the chain discipline), and the connected block is valid in that window (valid_op: fresh hash, distinct keys, no
+   key of a block still in the window - in particular none of the block that gets evicted). *)
+Theorem C10_no_missed_breach_refined le sc t0 u loc b delay sig hash txs h n w sched tf r :
+  In loc txs ->
+  RepW n (w_cache t0) w -> (0 < n)%nat -> valid_op w (TConnect (cache_block hash txs)) ->
+  run_sched t0 [add_p sc (Some u) loc b delay sig; (connect_p le sc hash txs h ;;; Ret tt) ;;; Ret OBlockRes] sched
+  = (tf, [Some (TOut (OAddRes r)); Some (TOut OBlockRes)]) ->
+  match r with
+  | AddOk _ _ _ _ =>
+      (find_app (db_apps tf) (loc, u) = None \/ find_trk (db_trks tf) (loc, u) <> None) \/
+      (exists p, b_pay b = Some p /\
+                 (snd (script_get sc p) = A_code Consts.RPC_VERIFY_ALREADY_IN_CHAIN \/
+                  aget (car_memo t0) p = Some IrrevocablyResolved))
+  | _ => True
+  end.
+Proof.
+  intros Hin HR Hn Hv. exact (accepted_then_watched_or_gone_refined le sc t0 u loc b txs hash h delay sig n w sched tf r Hin HR Hn Hv).
 Qed.
 
 (* ---- no record without its owner ------------------------------------------------------------------
@@ -302,7 +345,118 @@ Theorem C10_add_purge_refused :
   cf_poisoned c = [] /\ db_apps (cf_tower c) = [] /\ db_users (cf_tower c) = [].
 Proof. exact add_refused_when_purged_in_between. Qed.
 
+(* ---- the two granularities ----------------------------------------------------------------------------------
+   The controlled scheduler of the check replays `run_coarse` words (threads started in index order, then one letter
+   per granted lock request, the thread running on to its next request).  Every such execution is an execution of
+   the fine-grained semantics all the theorems above quantify over: they cover every run the harness can produce. *)
+Theorem C10_coarse_runs_are_fine_runs t ps w c' :
+  run_coarse (start_config t ps) w = Some c' ->
+  exists sched, run_config (init_config t ps) sched = c' /\
+                run_sched t ps sched = (cf_tower c', map thread_result (cf_threads c')).
+Proof. exact (coarse_runs_are_fine_runs t ps w c'). Qed.
+
+(* The converse fails, in this sense: a coarse execution only passes through configurations in which every thread
+   is ended, returning, or waiting for a lock; a fine schedule that stops a thread right before an action - e.g. the
+   atomic store of the gatekeeper's height, which follows the release of `users` - and lets another thread move is
+   not among the words the harness replays (it cannot preempt at an atomic height access). *)
+Theorem C10_coarse_configs_are_settled t ps w c' j th :
+  run_coarse (start_config t ps) w = Some c' -> nth_error (cf_threads c') j = Some th ->
+  match ct_st th with
+  | Running (Ret _) | Running (Acq _ _) | Ended _ => True
+  | Running (Rel _ _) | Running (Act _ _ _) => False
+  end.
+Proof. intros Hw Hn. exact (coarse_configs_are_settled t ps w c' Hw j th Hn). Qed.
+
+Theorem C10_preemption_before_an_action_is_not_coarse t ps sched j th :
+  nth_error (cf_threads (run_config (init_config t ps) sched)) j = Some th -> at_action th = true ->
+  forall w, run_coarse (start_config t ps) w <> Some (run_config (init_config t ps) sched).
+Proof. exact (preemption_before_an_action_is_not_coarse t ps sched j th). Qed.
+
+(* non-vacuity: a coarse word of add || block that runs both to their end; and a fine schedule that stops the block
+   between the release of `users` and the store of the height (3 events) *)
+Example C10_granularity_instances :
+  (match run_coarse (start_config w_reg [w_add; w_connect_dispute]) (repeat 0%nat 9 ++ repeat 1%nat 18) with
+   | Some c => all_finished c | None => false end) = true /\
+  (match nth_error (cf_threads (run_config (init_config w_reg [w_add; w_connect_dispute]) (repeat 1%nat 3))) 1 with
+   | Some th => at_action th | None => false end) = true.
+Proof. vm_compute. split; reflexivity. Qed.
+
+(* ---- a request among readers ------------------------------------------------------------------------------------
+   Any number of read-only requests (get_appointment, get_subscription_info) next to ONE arbitrary thread (a request
+   or the chain monitor delivering block events), any schedule: if that thread returns, its reply and the final
+   state are those of its program run alone from the initial state - i.e. of BOTH sequential orders as far as that
+   thread and the state are concerned, since readers change nothing.  (The readers' own replies: next theorem.) *)
+Theorem C10_writer_among_readers_runs_alone t ps sched j p o :
+  nth_error ps j = Some p ->
+  (forall i q, i <> j -> nth_error ps i = Some q -> readonly q) ->
+  nth_error (snd (run_sched t ps sched)) j = Some (Some (TOut o)) -> (forall s, o <> OAbort s) ->
+  exec p t = Ok o (fst (run_sched t ps sched)).
+Proof. exact (writer_among_readers_runs_alone t ps sched j p o). Qed.
+
+(* ---- a reader and a block disconnection ------------------------------------------------------------------------
+   get_appointment (resp. get_subscription_info)  ||  block `hash` disconnected at height h.  Whatever the schedule,
+   if both return: the block event's reply and the final state are those of its run alone, and the reader is told
+   what it is told when run alone BEFORE the block event (from the initial state) or AFTER it (from the final
+   state): state and replies of a sequential order.  (Of what the reader looks at, the disconnection changes the
+   gatekeeper's height only, by one atomic store, and the reader looks at the height once.) *)
+Theorem C10_get_disconnect_linearizable signer loc hash h t0 sched tf o ow :
+  run_sched t0 [get_p signer loc; (disconnect_p hash h ;;; Ret tt) ;;; Ret OBlockRes] sched
+  = (tf, [Some (TOut o); Some (TOut ow)]) ->
+  (forall s, o <> OAbort s) -> (forall s, ow <> OAbort s) ->
+  exec ((disconnect_p hash h ;;; Ret tt) ;;; Ret OBlockRes) t0 = Ok ow tf /\
+  (exec (get_p signer loc) t0 = Ok o t0 \/ exec (get_p signer loc) tf = Ok o tf).
+Proof.
+  exact (reader_and_height_writer_linearizable t0 (h - 1) (get_p signer loc) _ sched tf o ow (get_hs signer loc) (disconnect_wg hash h)).
+Qed.
+
+Theorem C10_getsub_disconnect_linearizable signer hash h t0 sched tf o ow :
+  run_sched t0 [getsub_p signer; (disconnect_p hash h ;;; Ret tt) ;;; Ret OBlockRes] sched
+  = (tf, [Some (TOut o); Some (TOut ow)]) ->
+  (forall s, o <> OAbort s) -> (forall s, ow <> OAbort s) ->
+  exec ((disconnect_p hash h ;;; Ret tt) ;;; Ret OBlockRes) t0 = Ok ow tf /\
+  (exec (getsub_p signer) t0 = Ok o t0 \/ exec (getsub_p signer) tf = Ok o tf).
+Proof.
+  exact (reader_and_height_writer_linearizable t0 (h - 1) (getsub_p signer) _ sched tf o ow (getsub_hs signer) (disconnect_wg hash h)).
+Qed.
+
+(* the second thread IS the thread program of the block event; and an interleaved run in which both return *)
+Example C10_disconnect_thread_is_prog_of_op :
+  prog_of_op true [] w_trig ODisconnect = (disconnect_p 2001 121 ;;; Ret tt) ;;; Ret OBlockRes /\
+  snd (run_sched w_trig [get_p (Some 1) 7; (disconnect_p 2001 121 ;;; Ret tt) ;;; Ret OBlockRes]
+         (repeat 0%nat 5 ++ repeat 1%nat 4 ++ repeat 0%nat 40 ++ repeat 1%nat 60))
+  = [Some (TOut (OGetRes GetNotFound)); Some (TOut OBlockRes)].
+Proof. split; vm_compute; reflexivity. Qed.
+
 (* ---- linearizability: what is refuted ----------------------------------------------------------------- *)
+
+(* get_appointment || add_appointment whose dispute is already in the locator cache: the reader is told "appointment"
+   (the row is stored, the responder has not yet been handed the breach), which it is told in neither sequential
+   order (nothing before, the tracker after); the final state is that of the order add ; get.  A reader next to a
+   writer that has several critical sections is NOT linearizable in its own reply. *)
+Theorem C10_reader_reply_not_linearizable :
+  let ps := [w_add; get_p (Some 1) 7] in
+  snd (run_sched w_trig ps w_get_midway) =
+    [Some (TOut (OAddRes (AddOk 121 1 9 520))); Some (TOut (OGetRes (GetApp 7 w_blob 20)))] /\
+  snd (run_sched w_trig ps (in_order [0; 1]%nat)) =
+    [Some (TOut (OAddRes (AddOk 121 1 9 520))); Some (TOut (OGetRes (GetTrk 7 107)))] /\
+  snd (run_sched w_trig ps (in_order [1; 0]%nat)) =
+    [Some (TOut (OAddRes (AddOk 121 1 9 520))); Some (TOut (OGetRes GetNotFound))] /\
+  fst (run_sched w_trig ps w_get_midway) = fst (run_sched w_trig ps (in_order [0; 1]%nat)).
+Proof. exact reader_sees_appointment_before_its_tracker. Qed.
+
+(* a reader || the block that purges its user: the reader's last critical section (the tables) runs after the purge,
+   the earlier ones (authentication, expiry test, the user's info) before it: "not found" / "subscription without
+   locators", told in neither order (before: the appointment / its locator; after: authentication failure) *)
+Theorem C10_reader_purge_reply_not_linearizable :
+  let pg := [get_p (Some 1) 7; w_connect_purge] in
+  let ps := [getsub_p (Some 1); w_connect_purge] in
+  snd (run_sched w_purge pg (w_reader_purged 8)) = [Some (TOut (OGetRes GetNotFound)); Some (TOut OBlockRes)] /\
+  snd (run_sched w_purge pg (in_order [0; 1]%nat)) = [Some (TOut (OGetRes (GetApp 7 w_blob 20))); Some (TOut OBlockRes)] /\
+  snd (run_sched w_purge pg (in_order [1; 0]%nat)) = [Some (TOut (OGetRes GetAuth)); Some (TOut OBlockRes)] /\
+  snd (run_sched w_purge ps (w_reader_purged 11)) = [Some (TOut (OSubRes (SubOk 9 122 []))); Some (TOut OBlockRes)] /\
+  snd (run_sched w_purge ps (in_order [0; 1]%nat)) = [Some (TOut (OSubRes (SubOk 9 122 [7]))); Some (TOut OBlockRes)] /\
+  snd (run_sched w_purge ps (in_order [1; 0]%nat)) = [Some (TOut (OSubRes SubAuth)); Some (TOut OBlockRes)].
+Proof. exact readers_straddle_the_purge. Qed.
 
 (* add_appointment || the block with its dispute is NOT linearizable in the height stamps (start_block 120
    next to a tracker stamped 121; the orders give 120/120 and 121/121) — while C10_no_missed_breach holds *)
@@ -334,3 +488,34 @@ Print Assumptions C10_get_never_aborts.
 Print Assumptions C10_get_purge_refused.
 Print Assumptions C10_add_purge_refused.
 Print Assumptions C10_add_connect_not_linearizable.
+Print Assumptions C10_coarse_runs_are_fine_runs.
+Print Assumptions C10_coarse_configs_are_settled.
+Print Assumptions C10_preemption_before_an_action_is_not_coarse.
+Print Assumptions C10_writer_among_readers_runs_alone.
+Print Assumptions C10_reader_reply_not_linearizable.
+Print Assumptions C10_reader_purge_reply_not_linearizable.
+Print Assumptions C10_no_missed_breach_refined.
+Print Assumptions C10_get_disconnect_linearizable.
+Print Assumptions C10_getsub_disconnect_linearizable.
+
+(* non-vacuity of the refined hypotheses: the locator cache of the reachable state w_reg represents a window (it was
+   built by ti_new from the bootstrap blocks), its capacity is positive, and block 2001 carrying locator 7 is valid *)
+Example C10_no_missed_breach_refined_instance :
+  exists n w, RepW n (w_cache w_reg) w /\ (0 < n)%nat /\ valid_op w (TConnect (cache_block 2001 [7])) /\ In 7 [7].
+Proof.
+  set (l := map (fun b : N * list N => cache_block (fst b) (snd b))
+                (sublist (Z.to_nat Consts.WATCHER_CACHE_FROM) (Z.to_nat Consts.WATCHER_CACHE_TO) w_blocks)).
+  assert (Hh : NoDup (map (@ib_hash N) l)) by (vm_compute; repeat (constructor; [cbn; intuition discriminate|]); constructor).
+
+  assert (Hk : NoDup (all_keys (rev l))) by (vm_compute; constructor).
+
+  destruct (new_refines l 120%Z Hh Hk) as [t [Ht HR]].
+  assert (E : ti_new l 120%Z = Some (w_cache w_reg)) by (vm_compute; reflexivity).
+
+  assert (Et : Some t = Some (w_cache w_reg)) by (rewrite <- Ht; exact E).
+ assert (Et' : t = w_cache w_reg) by (apply (f_equal (fun o => match o with Some x => x | None => t end)) in Et; exact Et). rewrite Et' in HR.
+  exists (length l), (mk_window (rev l) 120%Z). split; [exact HR|]. split; [vm_compute; lia|].
+  split; [|left; reflexivity].
+  cbn [valid_op]. (split; [vm_compute; intuition discriminate|]). (split; [vm_compute; repeat constructor; intros []|]).
+  intros k Hk'. vm_compute. intros [].
+Qed.
